@@ -413,8 +413,8 @@ pub fn run(ctx: &Ctx) -> Outcome {
         bases.dedup();
         let prefixes = scale_prefixes();
         // (generate recurses once per declaration: 33 000 declarations need more than the 2 MiB of a default
-        // worker stack - stack depth is C07's subject, not C09's, so these probes run on 512 MiB stacks)
-        let pool = rayon::ThreadPoolBuilder::new().stack_size(512 << 20).build().unwrap_or_else(|e| machinery_error(format!("C09: cannot build a thread pool: {e}")));
+        // worker stack - stack depth is C07's subject, not C09's, so these probes run on 64 MiB stacks)
+        let pool = rayon::ThreadPoolBuilder::new().stack_size(64 << 20).build().unwrap_or_else(|e| machinery_error(format!("C09: cannot build a thread pool: {e}")));
         let accs: Vec<Acc> = pool.install(|| {
             bases
                 .par_iter()
